@@ -116,6 +116,21 @@ Example C01_nonvacuous :
   let v := ([101; 102; 201; 301; 302]%N, [302]%N, Some [101; 201; 301; 102; 302]%N) in [v; v; v].
 Proof. split; [apply wfb_wf; vm_compute; reflexivity|vm_compute; reflexivity]. Qed.
 
+(* Why "Join = union" is stated for the histories C01 quantifies over (appends and unbounded merges of logs
+   that hold the whole past of their entries) and not for logs re-opened over a part of a log: a causally
+   open log stops at the entries it already knows.  In ex_hist_open replica 1 was opened over {102,103};
+   when it merges replica 0 = {101,102,103} it finds 103 and 102 known and never reaches 101 - the model
+   reproduces what the implementation does (the harness compares exactly these histories).  Heads,
+   reverse index, linearisation and everything else of the C16_reopened theorems hold for such a log. *)
+Example C01_union_is_for_closed_logs :
+  match nth_error (s_logs (run (firstn 8 ex_hist_open))) 0, nth_error (s_logs (run (firstn 8 ex_hist_open))) 1 with
+  | Some l0, Some l1 =>
+      (CheckLog.nsort (okeys (l_entries l0)), CheckLog.nsort (okeys (l_entries l1))) =
+      ([101; 102; 103]%N, [102; 103; 201]%N)
+  | _, _ => False
+  end.
+Proof. vm_compute. reflexivity. Qed.
+
 Print Assumptions C01_join_is_union.
 Print Assumptions C01_commutative.
 Print Assumptions C01_idempotent.
@@ -125,3 +140,4 @@ Print Assumptions C01_join_self_changes_nothing.
 Print Assumptions C01_join_other_id_changes_nothing.
 Print Assumptions C01_join_empty_changes_nothing.
 Print Assumptions C01_nonvacuous.
+Print Assumptions C01_union_is_for_closed_logs.
